@@ -315,13 +315,22 @@ def _expand(cases, quick, seed):
 
 def run(ctx):
   q = ctx.quick
-  rv = ctx.tlc('SplitConsistency', 'SplitConsistency_quick.cfg' if q else 'SplitConsistency_thorough.cfg')
+  from concurrent.futures import ThreadPoolExecutor
+  pool = ThreadPoolExecutor(4)          # independent machines, model checked side by side
+  jobs = {
+      'v': pool.submit(ctx.tlc, 'SplitConsistency', 'SplitConsistency_quick.cfg' if q else 'SplitConsistency_thorough.cfg', workers=4),
+      'l': pool.submit(ctx.tlc, 'SplitLedger', 'SplitLedger.cfg', workers=4),
+      'a': pool.submit(ctx.tlc, 'SplitLedger', 'SplitLedger_asfound.cfg', expect_violation=True, tag='asfound', coverage=False, workers=2),
+      's': pool.submit(ctx.tlc, 'PrimitivePoly', 'PrimitivePoly_split.cfg', tag='split_poly', workers=4, timeout=3600),
+      's3': pool.submit(ctx.tlc, 'PrimitivePoly', 'PrimitivePoly_split_deep.cfg', tag='split_poly3', workers=4, timeout=3600),
+  }
+  rv = jobs['v'].result()
   ctx.require_actions(rv, ['InitSplit'])
   if rv.depth < 4 or not rv.cases:
     raise common.MachineryError('SplitConsistency did not reach its terminal states')
-  rl = ctx.tlc('SplitLedger', 'SplitLedger.cfg')
+  rl = jobs['l'].result()
   ctx.require_actions(rl, ['Term'])
-  ra = ctx.tlc('SplitLedger', 'SplitLedger_asfound.cfg', expect_violation=True, tag='asfound', coverage=False)
+  ra = jobs['a'].result()
   ctx.notes['design_level_counterexample'] = (
       'SplitLedger_asfound.cfg: BalancedIncludingCloud is violated (the cloud-condensate loading of the virtual '
       'temperature has no Tref counterpart): ' + str(ra.violated))
@@ -329,9 +338,11 @@ def run(ctx):
     raise common.MachineryError('the as-found ledger was expected to refute BalancedIncludingCloud')
   # design level, horizontally structured states: the continuous-equation machine of C05 (PrimitivePoly.tla)
   # is evaluated for two splits of the same absolute temperature; temperature and divergence totals agree
-  rs = ctx.tlc('PrimitivePoly', 'PrimitivePoly_split.cfg', tag='split_poly', workers=6, timeout=3600)
+  rs = jobs['s'].result()
   ctx.require_actions(rs, ['Diagnose', 'Divergence', 'Temperature', 'Rest'])
-  rs3 = ctx.tlc('PrimitivePoly', 'PrimitivePoly_split_deep.cfg', tag='split_poly3', workers=4, timeout=3600)
+  rs3 = jobs['s3'].result()
+  pool.shutdown()
+  ctx.tlc_runs.sort(key=lambda r_: (r_.module, r_.cfg))
   ctx.require_actions(rs3, ['Diagnose', 'Divergence', 'Temperature', 'Rest'])
   ctx.notes['split_independence_of_the_continuous_machine'] = (
       f'{rs.states} + {rs3.states} states (two and three levels), SplitFree and HOfAgrees hold')
